@@ -60,19 +60,60 @@ let show_leaf b l =
   if int_of_z l.l_bit < 0 then Buffer.add_string b (Printf.sprintf " m%d:%d" (int_of_z l.l_off) (int_of_z l.l_sz))
   else Buffer.add_string b (Printf.sprintf " b%d:%d" (8 * int_of_z l.l_off + int_of_z l.l_bit) (int_of_z l.l_sz))
 
+let do_layout b t =
+  let c = c2m_layout t in
+  Buffer.add_string b (Printf.sprintf "L %d %d" (int_of_z (type_size c)) (int_of_z c.align));
+  List.iter (show_leaf b) c.leaves;
+  let s = sysv_layout t in
+  Buffer.add_string b (Printf.sprintf " | L %d %d" (int_of_z s.sv_size) (int_of_z s.sv_align));
+  List.iter (show_leaf b) s.sv_leaves
+
+(* classification: "K <nl>,<nd> <nl>,<nd> ... | <decl>"  ->
+   "K ret=<r> args=<a>;<a>... | ret=<r> args=<a>;<a>..."   (c2mir model | SysV model)
+   c2mir: r = M or letters I/S/X of the MIR result types, a = blk<k>:<size>;
+   SysV:  r = M or letters I/S/X, a = M or letters I/S/n per eightbyte *)
+let do_classify b pres t =
+  let letter = function MI8 | MI16 | MI32 | MI64 -> "I" | MF | MD -> "S" | MLD -> "X" | MX87UP -> "?" in
+  let size = int_of_z (type_size (c2m_layout t)) in
+  Buffer.add_string b "K ret=";
+  (match process_ret_type t with
+   | None -> Buffer.add_string b "M"
+   | Some l -> List.iter (fun m -> Buffer.add_string b (letter m)) l);
+  Buffer.add_string b " args=";
+  List.iteri (fun i (nl, nd) ->
+    let ((k, _), _) = pass_aggregate_arg t (z_of_int nl) (z_of_int nd) in
+    Buffer.add_string b (Printf.sprintf "%sblk%d:%d" (if i > 0 then ";" else "") (int_of_z k) size)) pres;
+  Buffer.add_string b " | ret=";
+  (match sysv_return t with
+   | None -> Buffer.add_string b "M"
+   | Some l -> List.iter (fun r -> Buffer.add_string b (match r with RInt -> "I" | RSse -> "S" | RX87 -> "X")) l);
+  Buffer.add_string b " args=";
+  List.iteri (fun i (nl, nd) ->
+    let ((r, _), _) = sysv_pass_arg t (z_of_int nl) (z_of_int nd) in
+    if i > 0 then Buffer.add_string b ";";
+    match r with
+    | None -> Buffer.add_string b "M"
+    | Some l -> List.iter (fun p -> Buffer.add_string b (match p with InInt -> "I" | InSse -> "S" | InNone -> "n")) l) pres
+
 let () =
   try
     while true do
       let line = input_line stdin in
       if String.trim line <> "" then begin
-        let (t, _) = parse_ty (tokens line) in
         let b = Buffer.create 256 in
-        let c = c2m_layout t in
-        Buffer.add_string b (Printf.sprintf "L %d %d" (int_of_z (type_size c)) (int_of_z c.align));
-        List.iter (show_leaf b) c.leaves;
-        let s = sysv_layout t in
-        Buffer.add_string b (Printf.sprintf " | L %d %d" (int_of_z s.sv_size) (int_of_z s.sv_align));
-        List.iter (show_leaf b) s.sv_leaves;
+        (match tokens line with
+         | "K" :: rest ->
+           let rec split acc = function
+             | "|" :: r -> (List.rev acc, r)
+             | x :: r -> split (x :: acc) r
+             | [] -> failwith "K line without |" in
+           let (pres, decl) = split [] rest in
+           let pres = List.map (fun s -> match String.split_on_char ',' s with
+             | [a; c] -> (int_of_string a, int_of_string c) | _ -> failwith "bad pre") pres in
+           let (t, _) = parse_ty decl in
+           do_classify b pres t
+         | "L" :: rest -> let (t, _) = parse_ty rest in do_layout b t
+         | toks -> let (t, _) = parse_ty toks in do_layout b t);
         print_endline (Buffer.contents b)
       end
     done
